@@ -250,6 +250,16 @@ def oracle(ctx):
     # the answer is a function of (elements, instant): array-valued times, re-used and updated in place between queries
     for (l1, l2, o, ts) in recs[:ctx.size(25, 400)]:
         ctx.bump("sequence_probe", seq_probe(ctx, l1, l2, [ts[1], ts[1] + 1.5, ts[1] + 7.0], ctx.rng.choice([90.0, 600.0, 5.0]), o))
+    # array-valued times spanning whole revolutions on eccentric orbits: each element conforms on its own
+    if drv:
+        done = 0
+        for (l1, l2, o, ts) in recs:
+            if done >= ctx.size(12, 150):
+                break
+            if float(o.tle.excentricity) < 0.02:
+                continue
+            done += 1
+            ctx.bump("array_probe", array_probe(ctx, drv, l1, l2, ctx.rng.uniform(-3000.0, 3000.0), o))
     # AIAA vectors
     worst = 0.0
     for sat, l1, l2, vecs in aiaa_vectors():
@@ -270,6 +280,36 @@ def oracle(ctx):
                 ctx.violation("aiaa_vector", {"line1": l1, "line2": l2, "minutes": mins},
                               {"impl": list(pos), "aiaa": p, "diff_km": dp}, "<= 5 mm", site="Orbital.get_position")
     ctx.note("worst |dr| vs AIAA vectors = %.3g km" % worst)
+
+
+def array_probe(ctx, drv, l1, l2, start_min, o=None, n=180, step_min=1.5):
+    """get_position for an ARRAY of n instants (a 1.5-minute grid, i.e. several revolutions) against the published model
+    evaluated per instant: 1 mm / 1 um/s per element (where the model keeps a within a factor two of its epoch value)."""
+    from pyorbital import orbital
+    o = o or orbital.Orbital("x", line1=l1, line2=l2)
+    mins = [start_min + k * step_min for k in range(n)]
+    us = [int(round(m * 60e6)) for m in mins]
+    arr = o.tle.epoch + np.array(us, dtype="int64").astype("timedelta64[us]")
+    try:
+        pos, vel = o.get_position(arr, normalize=False)
+    except Exception:  # noqa  refusals/decay: C13
+        return "refused"
+    nums = sgp4io.tle_nums(o.tle)
+    out = drv.run(["str3 " + " ".join(lib.f2h(x) for x in nums) + "".join(" " + lib.f2h(u / 60e6) for u in us)])[0]
+    steps = out.split(" | ")[1:]
+    for i in range(n):
+        ctx.count("eval_oracle_array")
+        vals = [lib.h2f(x) for x in steps[i].split()[:7]]
+        if steps[i].split()[7] == "1" or not (0.5 <= vals[6] <= 2.0):
+            continue
+        dp = float(np.linalg.norm(np.asarray(pos)[:, i] - np.array(vals[0:3])))
+        dv = float(np.linalg.norm(np.asarray(vel)[:, i] - np.array(vals[3:6])))
+        if dp > 1e-6 + 1e-9 or dv > 1e-9 + 1e-12:
+            ctx.violation("array_position_vs_str3", {"line1": l1, "line2": l2, "array_start_min": start_min, "n": n, "step_min": step_min, "index": i},
+                          {"impl": list(np.asarray(pos)[:, i]), "spec": vals[0:3], "diff_km": dp, "diff_kms": dv},
+                          "|dr| <= 1 mm and |dv| <= 1 um/s for every element of an array of times", site="Orbital.get_position")
+            return "violated"
+    return "ok"
 
 
 def seq_probe(ctx, l1, l2, mins, step_s, o=None):
@@ -316,6 +356,10 @@ def match_known(entry, v):
 def replay(ctx, case):
     from pyorbital import orbital
     inp = case.get("input", case)
+    if "array_start_min" in inp:
+        r = array_probe(ctx, lib.Driver(), inp["line1"], inp["line2"], inp["array_start_min"], None, inp["n"], inp["step_min"])
+        print("array probe:", r)
+        return 1 if r == "violated" else 0
     if "minutes_list" in inp:
         r = seq_probe(ctx, inp["line1"], inp["line2"], inp["minutes_list"], inp["step_s"])
         print("sequence probe:", r)
